@@ -606,7 +606,18 @@ func main() {
 			params = append(params, k+"@tcp", k+"@udp")
 		}
 	}
-	for _, r := range harness.ExploreBatch("concurrent", params, harness.Pick(c, 2, 3), harness.Pick(c, 60*time.Second, 30*time.Minute), false) {
+	// the three-thread and two-operations-per-thread scenarios get one deviation less
+	var light, heavy []string
+	for _, p := range params {
+		if strings.HasPrefix(p, "three-ops") || strings.HasPrefix(p, "two-each") {
+			heavy = append(heavy, p)
+		} else {
+			light = append(light, p)
+		}
+	}
+	results := harness.ExploreBatch("concurrent", light, harness.Pick(c, 2, 3), harness.Pick(c, 90*time.Second, 30*time.Minute), false)
+	results = append(results, harness.ExploreBatch("concurrent", heavy, harness.Pick(c, 1, 2), harness.Pick(c, 90*time.Second, 30*time.Minute), false)...)
+	for _, r := range results {
 		c.Sample(map[string]any{"scenario": r.Param, "threads": fmt.Sprint(concSets[strings.Split(r.Param, "@")[0]]), "executions": r.Stats.Execs, "observations": len(r.Stats.Observations)})
 		c.AddExploration("concurrent", r.Param, r.Stats, harness.Confirm(concScenario(r.Param)))
 	}
